@@ -12,7 +12,9 @@ names=("$@"); [ ${#names[@]} -gt 0 ] || names=($(ls seeded))
 # but not expected to be reported
 keep=()
 for n in "${names[@]}"; do
-  if grep -q '"judged"' "seeded/$n/meta.json" 2>/dev/null; then echo "judged  $n  (not a violation, see meta.json)"; else keep+=("$n"); fi
+  if grep -q '"judged"' "seeded/$n/meta.json" 2>/dev/null; then echo "judged  $n  (not a violation, see meta.json)"
+  elif grep -q '"out_of_reach"' "seeded/$n/meta.json" 2>/dev/null; then echo "out-of-reach  $n  (cannot show on this platform, see meta.json)"
+  else keep+=("$n"); fi
 done
 names=("${keep[@]}")
 if [ -n "${FAST:-}" ]; then
